@@ -107,3 +107,17 @@ package astcomp
 //@   loop 2: invariant ghost(compiled) == old(ghost(compiled)) + i && commonCount <= i && (doTailExp ==> i == commonCount && commonCount == len(exps) - 1) && (!doTailExp ==> (i <= len(exps) || i == commonCount) && commonCount <= len(exps))
 //@   loop 3: invariant ghost(compiled) == old(ghost(compiled)) + ite(doTailExp, len(exps) - 1, len(exps))
 //@   loop 4: invariant ghost(compiled) == old(ghost(compiled)) + len(exps) && !doTailExp
+
+// A return statement is a tail call only when its single expression is a plain
+// function call: `return (f(x))` is adjusted to one value and is not a tail call
+// (manual 3.3.4, 3.4.10), and nothing is a tail call while to-be-closed
+// variables are pending.
+//@ func (*compiler).getTailCall
+//@   prop C01
+//@   arith int
+//@   norte
+//@   nocover
+//@   requires c != nil
+//@   modifies everything()
+//@   exits any
+//@   ensures result1 ==> len(rtn) == 1 && typeis(rtn[0], ast.FunctionCall)
